@@ -3,6 +3,8 @@ package props
 import (
 	"fmt"
 	"math/rand"
+	"os"
+	"path/filepath"
 	"strings"
 
 	"github.com/CloudyKit/jet/v6"
@@ -162,6 +164,10 @@ func c16traceOf(calls []rec.Call) []string {
 func c16run(c *fw.Ctx, idx int) {
 	if idx == 0 {
 		c16alias(c)
+		return
+	}
+	if idx <= 4 {
+		c16dirCandidate(c, idx)
 		return
 	}
 	r := c.Rand(idx, "c16")
@@ -472,6 +478,45 @@ func c16run(c *fw.Ctx, idx int) {
 		}
 		c.Sample(map[string]interface{}{"config": map[string]interface{}{"extensions": exts, "dev": dev, "custom_cache": custom}, "history_prefix": hist})
 	}
+}
+
+// c16dirCandidate: with a file-system loader a DIRECTORY named like an earlier candidate (views/users/ next to
+// views/users.jet, "" before ".jet" in the extension list) is no existing file: the first existing FILE wins.
+func c16dirCandidate(c *fw.Ctx, idx int) {
+	dev := idx%2 == 0
+	exts := [][]string{nil, {"", ".jet"}, {".tpl", "", ".jet"}, nil, {"", ".html", ".jet"}}[idx]
+	c.Begin(idx, map[string]interface{}{"directed": "directory named like an earlier extension candidate", "dev": dev, "extensions": exts})
+	defer c.End()
+	root, err := os.MkdirTemp(os.Getenv("VCHECK_TMP"), "c16-")
+	if err != nil {
+		c.Count("tempdir_failed", 1)
+		return
+	}
+	defer os.RemoveAll(root)
+	os.MkdirAll(filepath.Join(root, "users", "deep"), 0755)
+	os.WriteFile(filepath.Join(root, "users", "list.jet"), []byte("LIST"), 0644)
+	os.WriteFile(filepath.Join(root, "users.jet"), []byte("USERS-TEMPLATE"), 0644)
+	os.WriteFile(filepath.Join(root, "page.jet"), []byte("PAGE<{{include \"users\"}}>"), 0644)
+	opts := []jet.Option{jx.NoEscape}
+	if dev {
+		opts = append(opts, jet.InDevelopmentMode())
+	}
+	if exts != nil {
+		opts = append(opts, jet.WithTemplateNameExtensions(exts))
+	}
+	set := jet.NewSet(jet.NewOSFileSystemLoader(root), opts...)
+	for round := 0; round < 2; round++ {
+		for name, want := range map[string]string{"/users": "USERS-TEMPLATE", "/page": "PAGE<USERS-TEMPLATE>", "/users/list": "LIST"} {
+			res := jx.RunSet(set, name, nil, nil)
+			c.Eval(1)
+			if res.Failed() || res.Out != want {
+				c.Violation("c16:first-existing-file-wins:directory-candidate", "", fmt.Sprintf("round %d: GetTemplate(%q) rendered %s, want %q (users/ is a directory, users.jet the first existing file)", round, name, res, want))
+				return
+			}
+		}
+	}
+	c.Count("directed_directory_candidate_cases", 1)
+	c.Distinct(fmt.Sprintf("dir-candidate|%v|%v", dev, exts))
 }
 
 // c16alias is the directed witness of known finding K2 (cache aliasing between name and name+extension).
